@@ -88,6 +88,10 @@ def find_islands(im, bkg, rms,
     islands : [:class:`AegeanTools.models.PixelIsland`, ...]
       a list of islands
     """
+    if log is None:
+        # "or not": no logging was asked for
+        log = logging.getLogger("dummy")
+
     if (region is not None) and (wcs is None):
         log.warning("Find islands: Region was passed, but no wcs is defined." +
                     " Ignoring region.")
